@@ -302,7 +302,9 @@ def check_C10(tier, seed):
                     "lines": v["res"]["total"] if v.get("res") else 0, "reached": v["res"]["reached"] if v.get("res") else 0}
 
         res = vlib.pmap(one, jobs)
-        states = sum(r["v"]["distinct"] for r in res if "v" in r)
+        mc = vlib.tlc("SeqSimMC.tla", "SeqSimMC.cfg", env={"MODEL": os.path.join(vlib.SPEC, "models", "tiny.json")}, workers=2, timeout=600,
+                      extra=["-noGenerateSpecTE"])
+        states = sum(r["v"]["distinct"] for r in res if "v" in r) + mc["distinct"]
         viol = [r for r in res if r["verdict"] in ("rejected", "invariant", "bad")]
         mach = [r for r in res if r["verdict"] == "machinery"]
         rc = 0
@@ -318,6 +320,11 @@ def check_C10(tier, seed):
             print("VIOLATION property=C10 replay=%s  (serial trace is not a behaviour of SeqSim: longest accepted prefix %d of %d lines; next line %s)"
                   % (rp, r["reached"], r["lines"], line[:200]))
             rc = 1
+        if mc["violated"]:
+            print("VIOLATION property=C10 replay=%s  (SeqSim on the tiny tie-heavy model: %s violated)" % (os.path.join(vlib.SPEC, "SeqSimMC.tla"), mc["violated"]))
+            rc = 1
+        elif mc["error"] or not mc["distinct"]:
+            mach.append({"why": "SeqSimMC failed: %s" % mc["error"]})
         if mach and rc == 0:
             print("MACHINERY-FAILURE", json.dumps(mach[0].get("why"))[:400])
             rc = 2
@@ -328,7 +335,9 @@ def check_C10(tier, seed):
                "evaluations": len(res), "distinct_nontrivial": len(set((r["job"][0], r["job"][1], tuple(r["job"][3])) for r in ok)),
                "rule": "generated models of every family x stop mode (run to exhaustion / stop by predicates / stop after a termination time); "
                        "distinct by (model, mode); every line of the serial engine's dispatch log must be a SeqSim step",
-               "trace_lines_validated": sum(r.get("reached", 0) for r in res), "exhaustive": False}
+               "trace_lines_validated": sum(r.get("reached", 0) for r in res), "exhaustive": False,
+               "model_checking_runs": [{"spec": "SeqSimMC.tla", "what": "every tie resolution of the reference semantics on a tiny tie-heavy model gives the same "
+                                        "per-LP history", "states": mc["states"], "distinct": mc["distinct"], "violated": mc["violated"]}]}
         vlib.write_evidence("C10", tier, seed, "model_checking", cov, time.time() - t0, violations=len(viol),
                             assumptions=["the table-driven interpreter logs faithfully what the dispatcher handed to it",
                                          "library draws are taken from the log (their values are an input of SeqSim)"])
